@@ -477,12 +477,18 @@ func c15UnknownID(c *core.Ctx, k *core.Case) {
 // oracle "total": B=[bytes] I=[kind]
 func c15Total(c *core.Ctx, k *core.Case) {
 	c.Eval(1)
-	if k.I[0] == 0 {
-		var out nasType.QoSRules
-		_ = out.UnmarshalBinary(cloneB(k.B[0]))
-	} else {
+	parse := func(b []byte) uint64 {
+		if k.I[0] == 0 {
+			var out nasType.QoSRules
+			err := out.UnmarshalBinary(b)
+			return digestOf(err, &out)
+		}
 		var out nasType.QoSFlowDescs
-		_ = out.UnmarshalBinary(cloneB(k.B[0]))
+		err := out.UnmarshalBinary(b)
+		return digestOf(err, &out)
+	}
+	if !capacityIndependent(k.B[0], parse) {
+		c.Fail(k, "parse-depends-on-capacity", fmt.Sprintf("the %d octets %s parse differently from a slice of exactly that capacity and from the prefix of a larger array", len(k.B[0]), hx(k.B[0])))
 	}
 }
 
